@@ -180,13 +180,14 @@ Definition parse_body (puf : bool) (id : N) : sparser v9state v9_body :=
       match parse_templates i with
       | Err e => (Err e, s)
       | Ok (ts, pad) r =>
-          (Ok (V9Templates ts pad) r, {| v9_t := learn_templates ts (v9_t s); v9_o := v9_o s |})
+          (* an id names one template: the definitions supersede options templates of the same ids *)
+          (Ok (V9Templates ts pad) r, {| v9_t := learn_templates ts (v9_t s); v9_o := remove_keys (map t_id ts) (v9_o s) |})
       end
     else if id =? v9_options_template_id then
       match parse_otemplates i with
       | Err e => (Err e, s)
       | Ok (ts, pad) r =>
-          (Ok (V9OTemplates ts pad) r, {| v9_t := v9_t s; v9_o := learn_otemplates ts (v9_o s) |})
+          (Ok (V9OTemplates ts pad) r, {| v9_t := remove_keys (map ot_id ts) (v9_t s); v9_o := learn_otemplates ts (v9_o s) |})
       end
     else
       match lookup id (v9_o s) with
